@@ -172,7 +172,8 @@ def regen_all():
     os.makedirs(G, exist_ok=True)
     jobs = [('effects2v', '%s %s --repo %s -o %s --json %s' % (py, os.path.join(T, 'effects2v.py'), REPO, os.path.join(G, 'Effects.v'), os.path.join(G, 'effects_table.json'))),
             ('hashiter2v', '%s %s --repo %s -o %s' % (py, os.path.join(T, 'hashiter2v.py'), REPO, os.path.join(G, 'HashIter.v'))),
-            ('rhs2v', '%s %s --repo %s' % (py, os.path.join(T, 'rhs2v.py'), REPO))]
+            ('rhs2v', '%s %s --repo %s' % (py, os.path.join(T, 'rhs2v.py'), REPO)),
+            ('rhs2d2v', '%s %s --repo %s' % (py, os.path.join(T, 'rhs2d2v.py'), REPO))]
     for name, cmd in jobs:
         if not os.path.exists(os.path.join(T, name + '.py')):
             continue
